@@ -883,8 +883,7 @@ class Polyface3D(Base2DIn3D):
 
     def __key(self):
         """A tuple based on the object properties, useful for hashing."""
-        return tuple(hash(pt) for pt in self._vertices) + \
-            tuple(hash(face) for face in self._face_indices)
+        return tuple(self._vertices) + tuple(self._face_indices)
 
     def __hash__(self):
         return hash(self.__key())
